@@ -326,6 +326,101 @@ theorem exec_eqv (t : Nat) (p : Prog) : ∀ w, (exec t p w).world.Eqv w := by
         rwa [sel_put] at this
       exact (exitS_eqv m.key sv h1).trans hs
 
+/-! ### The totalised exits are never used outside their Python domain
+
+`exitS` deletes an absent cell / pops an absent or empty stack silently, where Python raises.
+`ExitDefined` says the Python code would not raise; it holds at every exit reached by `exec`. -/
+
+def ExitDefined (key : String) (sv : Saved) (s : Store) : Prop :=
+  match sv with
+  | .vs false _ => (s.val key).isSome = true
+  | .once outer => outer = .none → (s.once key).isSome = true
+  | .ee parent => parent = .none → (s.tim key).isSome = true
+  | .pop => ∃ f l, s.stk key = some (f :: l)
+  | .fs none => (s.ovr key).isSome = true
+  | _ => True
+
+/-- The argument is in the documented domain: `permission()` gets a permission, `timeit` a name
+(not `None`). -/
+def ArgOk (m : Mgr) (a : Arg) : Prop :=
+  (m.kind = .outermostWins ∨ m.kind = .enterExit) → a.a ≠ .none
+
+theorem normA_some {x : Option Atom} {a : Atom} (ha : a ≠ .none) (h : normA x = normA (some a)) : x = some a := by
+  cases x with
+  | none => cases a <;> simp_all [normA]
+  | some b => cases a <;> cases b <;> simp_all [normA]
+
+theorem exitDefined_enterS (m : Mgr) (a : Arg) (s s' : Store) (hd : ArgOk m a)
+    (h : s'.Eqv (enterS m a s).1) : ExitDefined m.key (enterS m a s).2 s' := by
+  unfold enterS at h ⊢
+  cases hk : m.kind <;> simp only [hk] at h ⊢
+  case valueScope =>
+    cases hv : (s.val m.key).isSome <;> simp only [ExitDefined]
+    rw [h.val]; simp [upd]
+  case dynEval =>
+    cases hv : (s.val m.key).isSome <;> simp only [ExitDefined]
+    rw [h.val]; simp [upd]
+  case outermostWins =>
+    intro ho
+    have := h.once m.key
+    simp only [upd, if_true, ho] at this
+    rw [normA_some (hd (Or.inl hk)) this]; rfl
+  case enterExit =>
+    intro ho
+    have := h.tim m.key
+    simp only [upd, if_true] at this
+    rw [normA_some (hd (Or.inr hk)) this]; rfl
+  case argScope =>
+    have := h.stk m.key
+    simp only [upd, if_true] at this
+    cases hs : s'.stk m.key with
+    | none => simp [hs, normS] at this
+    | some l => cases l with
+      | nil => simp [hs, normS] at this
+      | cons f l => exact ⟨f, l, hs⟩
+  case stack r =>
+    have := h.stk m.key
+    simp only [upd, if_true] at this
+    cases hs : s'.stk m.key with
+    | none => simp [hs, normS] at this
+    | some l => cases l with
+      | nil => simp [hs, normS] at this
+      | cons f l => exact ⟨f, l, hs⟩
+  case cascadeMap => trivial
+  case frameScope =>
+    cases hv : s.ovr m.key <;> simp only [ExitDefined]
+    rw [h.ovr]; simp [upd]
+
+/-- At the exit of every block executed by `exec`, the Python code finds the cell it deletes or
+pops (for arguments in the documented domain). -/
+theorem exit_defined {m : Mgr} {a : Arg} {t : Nat} {w w1 : World} {sv : Saved} {st : Storage} (p : Prog)
+    (hd : ArgOk m a) (h : enter m a t w = .ok (w1, sv, st)) :
+    ExitDefined m.key sv ((exec t p w1).world.sel st t) := by
+  have hr := exec_eqv t p w1
+  unfold enter at h
+  cases hk : m.kind <;> simp only [hk] at h
+  case dynEval =>
+    split at h
+    · split at h
+      · simp only [Except.ok.injEq, Prod.mk.injEq] at h
+        obtain ⟨h1, h2, h3⟩ := h
+        subst h1 h2 h3
+        have := sel_eqv hr .threadLocal t
+        rw [sel_put] at this
+        exact exitDefined_enterS m a _ _ hd this
+      · cases h
+    · simp only [Except.ok.injEq, Prod.mk.injEq] at h
+      obtain ⟨h1, h2, h3⟩ := h
+      subst h1 h2 h3
+      trivial
+  all_goals
+    simp only [Except.ok.injEq, Prod.mk.injEq] at h
+    obtain ⟨h1, h2, h3⟩ := h
+    subst h1 h2 h3
+    have := sel_eqv hr m.storage t
+    rw [sel_put] at this
+    exact exitDefined_enterS m a _ _ hd this
+
 /-! ### Isolation: simulation between a run under interference and the solo run -/
 
 /-- `f` leaves thread `t`'s store and the process store alone. -/
